@@ -85,15 +85,15 @@ func valFn(t int) func(v interface{}) error {
 	switch t {
 	case 1:
 		return func(v interface{}) error {
-			if len(v.(string)) > 2 {
-				return fmt.Errorf("too long")
+			if len(v.(string)) > 2 || len(v.(string)) == 0 {
+				return fmt.Errorf("too long or empty")
 			}
 			return nil
 		}
 	case 2:
 		return func(v interface{}) error {
-			if len(v.([]string)) > 2 {
-				return fmt.Errorf("too many")
+			if len(v.([]string)) > 2 || len(v.([]string)) == 0 {
+				return fmt.Errorf("too many or none")
 			}
 			return nil
 		}
@@ -327,7 +327,7 @@ func modelValidate(o OptSpec, v any) (mval, bool) {
 		if !ok || (re != nil && !re.MatchString(s)) || !allowedS(s) {
 			return mval{}, false
 		}
-		if o.ValFn && len(s) > 2 {
+		if o.ValFn && (len(s) > 2 || len(s) == 0) {
 			return mval{}, false
 		}
 		return mval{set: true, s: s}, true
@@ -353,7 +353,7 @@ func modelValidate(o OptSpec, v any) (mval, bool) {
 				return mval{}, false
 			}
 		}
-		if o.ValFn && len(arr) > 2 {
+		if o.ValFn && (len(arr) > 2 || len(arr) == 0) {
 			return mval{}, false
 		}
 		return mval{set: true, a: arr}, true
